@@ -61,8 +61,9 @@ def make_fevals(it, mode):
     return [abstract_evaluator(it, N1, "E"), abstract_evaluator(it, N1, "E2")]
 
 
-def unit_wrapper1(mode, nspin, add):
+def unit_wrapper1(mode, nspin, add, rhocut=False):
     def run(ctx):
+        RC = tm.var("rhocut")
         it = ctx.interp
         x = it.load_module(XMOD)
         fl = abstract_feature_list(it, N0, N1)
@@ -76,13 +77,15 @@ def unit_wrapper1(mode, nspin, add):
 
         def thunk():
             Xc = X0.copy()
-            r = it.call(K, [Xc], {})
+            r = it.call(K, [Xc], {"rhocut": RC} if rhocut else {})
             return r, Xc
+        it.hyps = [tm.mk_lt(tm.ZERO, RC)] if rhocut else []
         paths = all_paths(it, thunk)
         for pi_, (o, v, pc, _) in enumerate(paths):
             if o != "return":
                 ctx.holds("total#%d" % pi_, False, "wrapper raises %s" % (v,), fq, witness={"exception": str(v)})
                 continue
+            pc = list(pc) + ([tm.mk_lt(tm.ZERO, RC)] if rhocut else [])
             (res, dres), Xc = v
             ctx.holds("frame-X0T#%d" % pi_, same_elements(Xc, X0), "the wrapper must not write the caller's X0T", fq)
             ctx.holds("shapes#%d" % pi_, res.shape == (NS,) and dres.shape == X0.shape, "res %s dres %s" % (res.shape, dres.shape), fq)
@@ -172,8 +175,60 @@ def libxc_contract(it):
     it.overrides[BMOD + ":get_libxc_mgga_baseline"] = mk("mgga")
 
 
-def unit_wrapper2(mode, nspin, level, add):
+def replay_wrapper2(mode, nspin, rhocut):
+    """Native replay of the feature-derivative clause of MappedDFTKernel2 with a concrete evaluator and the real libxc baseline."""
+    def replay(wit):
+        from pyvc import native
+        native.install_shim()
+        import ciderpress.dft.xc_evaluator as xe, ciderpress.dft.xc_evaluator2 as x2, ciderpress.dft.transform_data as td
+
+        class Ev(xe.FuncEvaluator):
+            def __call__(self, X1, res=None, dres=None):
+                if X1.ndim == 3:
+                    a, b = X1[0], X1[1]
+                    w = np.arange(1, a.shape[1] + 1) * 0.3
+                    res[:] += np.sin(a @ w) * np.cos(b @ w) + np.sin(b @ w) * np.cos(a @ w)
+                    c = np.cos(a @ w) * np.cos(b @ w) - np.sin(b @ w) * np.sin(a @ w)
+                    dres[0] += c[:, None] * w
+                    dres[1] += c[:, None] * w
+                else:
+                    w = np.arange(1, X1.shape[1] + 1) * 0.3
+                    res[:] += np.sin(X1 @ w)
+                    dres[:] += np.cos(X1 @ w)[:, None] * w
+                return res, dres
+        fl = td.FeatureList([td.UMap(0, 0.7), td.VMap(1, 1.3, scale=2.0, center=0.5)])
+        K = x2.MappedDFTKernel2([Ev()], fl, mode, "GGA_X_PBE")
+        rng = np.random.RandomState(0)
+        ng = 4
+        X = 0.3 + rng.rand(nspin, 3, ng)
+        rho = 0.3 + rng.rand(nspin, ng)
+        rc = 1e-3 if rhocut else 0
+        if rhocut:
+            rho[0, 0] = 1e-4      # one channel below the cutoff; with two channels the total stays above it
+        sig = np.abs(rng.rand(2 * nspin - 1, ng)) * 0.1
+
+        def run(Xin):
+            vt = (np.zeros_like(rho, order="F"), np.zeros_like(sig, order="F"))
+            return K(Xin.copy(), (rho.copy(order="F"), sig.copy(order="F")), vt, rhocut=rc)
+        f, d = run(X)
+        rows, bad = [], False
+        for s_ in range(nspin):
+            for i in range(2):
+                h = 1e-5
+                Xp, Xm = X.copy(), X.copy()
+                Xp[s_, i, 0] += h
+                Xm[s_, i, 0] -= h
+                fd = (run(Xp)[0][0] - run(Xm)[0][0]) / (2 * h)
+                rows.append({"spin": s_, "feature": i, "code": float(d[s_, i, 0]), "finite_difference": float(fd)})
+                if abs(d[s_, i, 0] - fd) > 1e-6 * (1 + abs(fd)):
+                    bad = True
+        return {"reproduced": bad, "mode": mode, "nspin": nspin, "rhocut": rc, "rho_at_g0": rho[:, 0].tolist(), "rows": rows}
+    return replay
+
+
+def unit_wrapper2(mode, nspin, level, add, rhocut=False):
     def run(ctx):
+        RC = tm.var("rhocut")
         it = ctx.interp
         libxc_contract(it)
         x2 = it.load_module(X2MOD)
@@ -196,8 +251,10 @@ def unit_wrapper2(mode, nspin, level, add):
             Xc = X0.copy()
             rt = tuple(r.copy() for r in rt0)
             vt = tuple(v.copy() for v in vold)
-            r = it.call(K, [Xc, rt, vt], {})
+            r = it.call(K, [Xc, rt, vt], {"rhocut": RC} if rhocut else {})
             return r, Xc, rt, vt
+        if rhocut:
+            hyps.append(tm.mk_lt(tm.ZERO, RC))
         it.hyps = list(hyps)
         paths = all_paths(it, thunk)
         for pi_, (o, v, pc, _) in enumerate(paths):
@@ -214,8 +271,11 @@ def unit_wrapper2(mode, nspin, level, add):
             for g in range(NS):
                 for s in range(nspin):
                     for i in range(N0):
-                        ctx.equal("dfdX0T[%d,%d,%d]#%d" % (s, i, g, pi_), H, dX[s, i, g], tm.diff(tm.lift(f[g]), X0[s, i, g]), fq)
+                        ctx.equal("dfdX0T[%d,%d,%d]#%d" % (s, i, g, pi_), H, dX[s, i, g], tm.diff(tm.lift(f[g]), X0[s, i, g]), fq,
+                                  replay=replay_wrapper2(mode, nspin, rhocut))
                 for k, (r0, vo, vn) in enumerate(zip(rt0, vold, vt)):
+                    if rhocut:
+                        break   # the mask is piecewise constant in rho (A7): the rho-derivative is checked without cutoff
                     for c in range(r0.shape[0]):
                         ctx.equal("vrho_tuple[%d][%d,%d] += df/drho_tuple#%d" % (k, c, g, pi_), H, vn[c, g], tm.lift(vo[c, g]) + tm.diff(tm.lift(f[g]), r0[c, g]), fq)
             ctx.canary("canary#%d" % pi_, H, vt[0][0, 0], tm.lift(vold[0][0, 0]))
@@ -414,6 +474,10 @@ def units():
                 u.append(("wrapper1/%s/nspin%d/%s" % (mode, nspin, "add" if add else "noadd"), unit_wrapper1(mode, nspin, add)))
             for level in ("lda", "gga", "mgga"):
                 u.append(("wrapper2/%s/nspin%d/%s" % (mode, nspin, level), unit_wrapper2(mode, nspin, level, level != "mgga")))
+    for mode in ("SEP", "NPOL", "POL"):
+        for nspin in (1, 2):
+            u.append(("wrapper1-rhocut/%s/nspin%d" % (mode, nspin), unit_wrapper1(mode, nspin, True, rhocut=True)))
+            u.append(("wrapper2-rhocut/%s/nspin%d" % (mode, nspin), unit_wrapper2(mode, nspin, "gga", True, rhocut=True)))
     u.append(("evaluators", unit_evaluators))
     u.append(("baselines", unit_baselines))
     return u
